@@ -341,27 +341,32 @@ def value_worker(task: Tuple) -> Dict[str, Any]:
 
 
 def value_replay(pc: str, uc: str, v: Fraction) -> str:
-    return families.REPLAY_IMPORTS + f"""
+    return families.REPLAY_IMPORTS + f"""import math
 p, u = {pc}, {uc}
 v = {float(v)!r}       # base ** exponent
 vu = float(u.prefix.base) ** u.prefix.exponent if u.prefix.base else 1.0
 pu = p * u
 bad = []
+def close(x, want):
+    return abs(x - want) <= 1e-9 * abs(want)
 for m in (3.0, -2.5, 1.0, 1024.0):
-    a = (m * pu).unprefixed()
-    if abs(a.magnitude - m * v * vu) > 1e-9 * abs(m * v * vu) or a.unit.prefix.base != 0: bad.append(('unprefixed', m, a))
-    b = (m * pu).in_unit(u)
-    if abs(b.magnitude - m * v) > 1e-9 * abs(m * v): bad.append(('to-bare', m, b))
-    c = (m * u).in_unit(pu)
-    if abs(c.magnitude - m / v) > 1e-9 * abs(m / v): bad.append(('from-bare', m, c))
-    if float(v).is_integer() and v >= 1 and isinstance(pu.prefix.exponent, int) and not (m * pu == (m * int(v)) * u): bad.append(('eq', m))
-    for n in (-4, -1, 2, 3):
-        d = ((m * pu) ** n).unprefixed()
-        import math
-        if abs(math.log2(v * vu) * n) > 900: continue
-        if abs(d.magnitude - m ** n * (v * vu) ** n) > 1e-9 * abs(m ** n * (v * vu) ** n): bad.append(('pow', n, m, d))
-    e = ((m * u) / pu).unprefixed()
-    if abs(e.magnitude - m / v) > 1e-9 * abs(m / v): bad.append(('div', m, e))
+    try:
+        a = (m * pu).unprefixed()
+        if not close(a.magnitude, m * v * vu) or a.unit.prefix.base != 0: bad.append(('unprefixed', m, a))
+        b = (m * pu).in_unit(u)
+        if not close(b.magnitude, m * v): bad.append(('to-bare', m, b))
+        c = (m * u).in_unit(pu)
+        if not close(c.magnitude, m / v): bad.append(('from-bare', m, c))
+        if float(v).is_integer() and v >= 1 and isinstance(pu.prefix.exponent, int) and not (m * pu == (m * int(v)) * u):
+            bad.append(('eq', m))
+        for n in (-4, -1, 2, 3):
+            if abs(math.log2(v * vu) * n) > 900: continue
+            d = ((m * pu) ** n).unprefixed()
+            if not close(d.magnitude, m ** n * (v * vu) ** n): bad.append(('pow', n, m, d))
+        e = ((m * u) / pu).unprefixed()
+        if not close(e.magnitude, m / v): bad.append(('div', m, e))
+    except Exception as ex:
+        bad.append(('raised', m, type(ex).__name__, str(ex)[:80]))
 if bad:
     print('REPRODUCED:', bad[:6]); sys.exit(1)
 sys.exit(0)
